@@ -318,7 +318,7 @@ def real_thresholds(ctx, big):
     try:
         cont.init_container(pack_size_target=20000)
         datas = [b'obj-%d' % i for i in range(2100)]
-        keys = cont.add_objects_to_pack(datas)
+        keys = cont.add_objects_to_pack(datas[:1500]) + cont.add_objects_to_pack(datas[1500:], compress=True)
         model = dict(zip(keys, datas))
         loose = [cont.add_object(b'loose-%d' % i) for i in range(30)]
         for i, key in enumerate(loose):
